@@ -294,6 +294,15 @@ impl<'s> Scheduler<'s> {
                 let co_id = coroutine.id;
                 if CANCEL_COROUTINES.contains(&co_id) {
                     _ = CANCEL_COROUTINES.remove(&co_id);
+                    // Walk the coroutine through Running -> Cancelled instead of dropping it
+                    // silently, so that listeners (e.g. the pool's worker accounting) learn
+                    // that it is gone.
+                    if let CoroutineState::Syscall(val, syscall, _) = coroutine.state() {
+                        _ = coroutine.syscall(val, syscall, SyscallState::Executing);
+                    }
+                    if coroutine.running().is_ok() {
+                        _ = coroutine.cancel();
+                    }
                     warn!("Cancel coroutine:{} successfully !", co_id);
                     continue;
                 }
